@@ -124,10 +124,35 @@ func TestC17(t *testing.T) {
 	pbt.Check(t, "C17", func(c *pbt.C) {
 		spec := genSpec(c)
 		spec.ActiveSporks = 0
+		// the community spork address: a second key that is designated only while the chain is inside a height window
+		// (process globals the repository's own spork tests set the same way; restored after the case)
+		var communityKey types.Address
+		var comStart, comEnd uint64
+		community := c.Weighted("c17.community", 1, 1) == 1
+		if community {
+			oa, os_, oe := types.CommunitySporkAddress, definition.CommunitySporkAddressStartHeight, definition.CommunitySporkAddressEndHeight
+			c.Cleanup(func() {
+				types.CommunitySporkAddress, definition.CommunitySporkAddressStartHeight, definition.CommunitySporkAddressEndHeight = oa, os_, oe
+			})
+			communityKey = sim.UserKey(c.Int("c17.communityUser", 0, 1)).Address
+			comStart = uint64(c.Int("c17.comStart", 0, 25))
+			comEnd = comStart + uint64(c.Int("c17.comLen", 1, 25))
+			types.CommunitySporkAddress, definition.CommunitySporkAddressStartHeight, definition.CommunitySporkAddressEndHeight = communityKey, comStart, comEnd
+			c.Class("community-spork-key")
+			c.Note("community spork key %v designated for momentum heights [%d, %d)", communityKey, comStart, comEnd)
+		}
 		h := sim.NewHist(c, spec, genWorldOpts(c))
 		h.Intents = sim.DefaultIntents()
 		h.AckDepthMax = 3
+		h.ExtraSporkKey = communityKey
 		sporkKey := h.W.Keys.Spork.Address
+		designated := func(a types.Address) bool { return a == sporkKey || (community && a == communityKey) }
+		pickKey := func(label string) types.Address {
+			if community && c.Weighted(label+".community", 1, 1) == 1 {
+				return communityKey
+			}
+			return sporkKey
+		}
 		var model []*c17spork
 		implUsed := map[int]bool{}
 		var undo []func()
@@ -141,14 +166,14 @@ func TestC17(t *testing.T) {
 		probesNear := 0
 
 		create := func() {
-			from := sporkKey
+			from := pickKey("cr")
 			if c.Weighted("cr.byOther", 4, 1) == 1 {
 				from = h.Users[c.Pick("cr.who", len(h.Users))]
 			}
 			name := fmt.Sprintf("spork-%d", len(model))
 			blk, err := h.Submit(&nom.AccountBlock{Address: from, ToAddress: types.SporkContract, TokenStandard: types.ZnnTokenStandard, Amount: big.NewInt(0),
 				Data: definition.ABISpork.PackMethodPanic(definition.SporkCreateMethodName, name, "created by the harness")}, "spork.Create("+name+") by "+from.String()[:10])
-			if err == nil && from != sporkKey {
+			if err == nil && !designated(from) {
 				c.Failf("C17/create-by-other-key", "a spork creation sent by %v (not the designated key) was accepted", from)
 			}
 			_ = blk
@@ -162,12 +187,12 @@ func TestC17(t *testing.T) {
 				return
 			}
 			s := cands[c.Pick("ac.idx", len(cands))]
-			from := sporkKey
+			from := pickKey("ac")
 			if c.Weighted("ac.byOther", 4, 1) == 1 {
 				from = h.Users[c.Pick("ac.who", len(h.Users))]
 			}
 			// the node must know the spork as implemented before it can pass its enforcement height
-			if s.impl < 0 && from == sporkKey {
+			if s.impl < 0 && designated(from) {
 				free := []int{}
 				for i := range c17impl {
 					if !implUsed[i] {
@@ -184,7 +209,7 @@ func TestC17(t *testing.T) {
 			}
 			blk, err := h.Submit(&nom.AccountBlock{Address: from, ToAddress: types.SporkContract, TokenStandard: types.ZnnTokenStandard, Amount: big.NewInt(0),
 				Data: definition.ABISpork.PackMethodPanic(definition.SporkActivateMethodName, s.id)}, fmt.Sprintf("spork.Activate(%s) by %s (already activated: %v)", s.name, from.String()[:10], s.activated))
-			if err == nil && from != sporkKey {
+			if err == nil && !designated(from) {
 				c.Failf("C17/activate-by-other-key", "a spork activation sent by %v (not the designated key) was accepted", from)
 			}
 			_ = blk
@@ -203,11 +228,22 @@ func TestC17(t *testing.T) {
 				seenRecv[r.Hash] = true
 				// every successful call of the designated key counts, whichever action sent it
 				snd := l.Sends[r.FromBlockHash]
-				if snd == nil || snd.Address != sporkKey || len(snd.Data) < 4 {
+				if snd == nil || !designated(snd.Address) || len(snd.Data) < 4 {
 					continue
 				}
 				if merr, known := h.A.MethodErrs[snd.Hash]; !known || merr != nil {
+					if known && snd.Address != sporkKey {
+						c.Class("community-key-call-refused")
+					}
 					continue
+				}
+				if snd.Address != sporkKey {
+					// the community key is designated only while the momentum the call is executed against lies in its window
+					at := r.MomentumAcknowledged.Height
+					if at < comStart || at >= comEnd {
+						c.Failf("C17/community-key-outside-window", "a spork call of the community key executed against momentum %d succeeded; the key is designated for heights [%d, %d) only", at, comStart, comEnd)
+					}
+					c.Class("community-key-call-succeeded-inside-window")
 				}
 				if m, err := definition.ABISpork.MethodById(snd.Data[:4]); err == nil {
 					switch m.Name {
